@@ -27,6 +27,7 @@ PKG_DIRS = {
     "queue": "internal/deque/queue",
     "lossy": "internal/lossy",
     "expiration": "internal/expiration",
+    "kit": "internal/verifkit",
 }
 
 
